@@ -1,5 +1,6 @@
-(* C14: extraction of the lineariser model for the correspondence run. *)
+(* C14: extraction of the lineariser model and of the grammar's canonical stream for the
+   correspondence run. *)
 Require Import ExtrOcamlBasic.
-Require Import AV.Linear.Model.
+Require Import AV.Linear.Model AV.Linear.Grammar.
 
-Extraction "Linear/extracted/linear.ml" linearize indentLevel.
+Extraction "Linear/extracted/linear.ml" linearize indentLevel canonPiled canonBraced wf_block.
